@@ -52,7 +52,8 @@ IN = z3.Function('IN', Int, Int, DS)           # owner id (python int), index
 APP_R = z3.Function('APP_R', Fn, Obj, Bool)
 APP_V = z3.Function('APP_V', Fn, Obj, Obj)
 APP_E = z3.Function('APP_E', Fn, Obj, Exc)
-TRUTH = z3.Function('TRUTH', Obj, Bool)        # python truthiness of an opaque value
+TRUTH = z3.Function('TRUTH', Obj, Bool)
+IS_NONE = z3.Function('IS_NONE', Obj, Bool)    # an opaque example value may be None        # python truthiness of an opaque value
 # exceptions
 CLS = z3.Function('CLS', Exc, Cls)
 SUB = z3.Function('SUB', Cls, Cls, Bool)       # issubclass
@@ -238,7 +239,7 @@ class Folds:
 
     def sum(self, jvar, term):
         canon = z3.Int('_J')
-        t = z3.substitute(term, (jvar, canon))
+        t = z3.simplify(z3.substitute(term, (jvar, canon)))
         key = t.sexpr()
         if key not in self.by_key:
             f = z3.Function('SUM!%d' % len(self.by_key), Int, Int)
